@@ -26,6 +26,10 @@ func boolLine(key, form string) []string {
 		return []string{key + " yes"}
 	case "no":
 		return []string{key + " no"}
+	case "yes-then-no": // two lines at one level: the later one is in effect
+		return []string{key + " yes", key + " no"}
+	case "no-then-yes":
+		return []string{key + " no", key}
 	}
 	return nil
 }
@@ -34,9 +38,9 @@ func boolLine(key, form string) []string {
 func resolveBool(def bool, forms ...string) bool {
 	for _, f := range forms {
 		switch f {
-		case "bare", "yes":
+		case "bare", "yes", "no-then-yes":
 			return true
-		case "no":
+		case "no", "yes-then-no":
 			return false
 		}
 	}
@@ -45,7 +49,7 @@ func resolveBool(def bool, forms ...string) bool {
 
 func opposite(form string) string {
 	switch form {
-	case "bare", "yes":
+	case "bare", "yes", "no-then-yes":
 		return "no"
 	}
 	return "yes"
@@ -234,10 +238,25 @@ func C12Scenarios(tier string) []*Scenario {
 			}
 		}
 	}
+	// two lines of one key at one level (several -g flags, two comment lines): the later line is in effect
+	for _, p := range c12Probes() {
+		for _, twice := range []string{"yes-then-no", "no-then-yes"} {
+			for _, lvl := range []int{0, 1, 2} {
+				for _, other := range []string{"absent", "yes", "no"} {
+					forms := []string{"absent", "absent", "absent"}
+					forms[lvl] = twice
+					forms[(lvl+1)%3] = other
+					n++
+					out = append(out, buildC12(fmt.Sprintf("%05d", n), p, forms[0], forms[1], forms[2], false))
+				}
+			}
+		}
+	}
 	out = append(out, c12StringSettings(&n)...)
 	out = append(out, c12WrapUsing(&n)...)
 	out = append(out, c12RelatedZeroKeys(&n)...)
 	out = append(out, c12CtxRegex(&n)...)
+	out = append(out, ctxRegexFuncScenarios(&n, "C12")...)
 	out = append(out, nestedScenarios(80000, "C12")...)
 	out = append(out, mixedSkipCopyRecursive(85000, "C12")...)
 	sort.SliceStable(out, func(i, j int) bool { return strings.Join(out[i].Global, "\x00") < strings.Join(out[j].Global, "\x00") })
@@ -811,6 +830,78 @@ func c12RelatedZeroKeys(n *int) []*Scenario {
 							out = append(out, sc)
 						}
 					}
+				}
+			}
+		}
+	}
+	return out
+}
+
+// ctxRegexFuncScenarios: arg:context:regex at every level combination, observed through the custom functions written on
+// the METHOD: map F F | FUNC and default FUNC take a context parameter that is declared only by the expression in effect
+// for that method (first of method, converter, command line). The method's own context parameter matches every
+// non-empty expression of the menu, so only FUNC's classification varies.
+func ctxRegexFuncScenarios(n *int, prop string) []*Scenario {
+	var out []*Scenario
+	vals := []string{"", "^c", "^ctxq"} // "^c" matches ctxa and ctxq; "^ctxq" matches only FUNC's parameter
+	for _, site := range []string{"mapfunc", "default"} {
+		for _, cli := range vals {
+			for _, cv := range vals {
+				for _, me := range vals {
+					*n++
+					id := fmt.Sprintf("%05d", *n)
+					sc := &Scenario{ID: "XF" + id, PropGen: prop, PropVal: prop, Test: "Convert", Funcs: map[string]string{},
+						Desc: map[string]any{"class": "setting=arg:context:regex site=" + site, "cli": cli, "converter": cv, "method": me}}
+					conv := &model.Converter{OutPkg: "conv/generated", LitPkg: "conv"}
+					sc.Conv = conv
+					mlines := []string{"context ctxa"} // the method's own context is declared by name
+					eff := ""
+					if cli != "" {
+						sc.Global = []string{"arg:context:regex " + cli}
+						eff = cli
+					}
+					if cv != "" {
+						sc.ConvLines = []string{"arg:context:regex " + cv}
+						eff = cv
+					}
+					if me != "" {
+						mlines = append([]string{"arg:context:regex " + me}, mlines...)
+						eff = me
+					}
+					sd := &space.Decl{Pkg: "in", Name: "S" + id, Under: space.St(f("A", tInt))}
+					td := &space.Decl{Pkg: "out", Name: "T" + id, Under: space.St(f("A", tStr))}
+					sc.Decls = []*space.Decl{sd, td}
+					sT, tT := space.N(sd), space.N(td)
+					fn := "Xc" + id
+					top := &model.Method{Name: "Convert", Src: sT, Dst: tT, Set: conv.Set, Fields: map[string]*model.FieldCfg{}, CtxTypes: []*space.Ty{tStr}}
+					funcIsCtx := eff != "" // both non-empty expressions match ctxq
+					switch site {
+					case "mapfunc":
+						sc.FuncsSrc = fmt.Sprintf("func %s(s int, ctxq string) string { return fmt.Sprint(s, ctxq) }\n", fn)
+						mlines = append(mlines, "map A A | "+fn)
+						top.Fields["A"] = &model.FieldCfg{Source: "A", Fn: &model.Custom{Name: fn, Src: tInt, Dst: tStr, Ctx: []*space.Ty{tStr}, ArgsFmt: []string{"src", "ctx:0"}}}
+						top.NFieldSettings = 1
+					case "default":
+						sc.FuncsSrc = fmt.Sprintf("func %s(s %s, ctxq string) %s { return %s{A: \"d\" + ctxq} }\n", fn, sT.Go("conv"), tT.Go("conv"), tT.Go("conv"))
+						sc.ConvLines = append(sc.ConvLines, "extend Ia"+id)
+						sc.FuncsSrc += fmt.Sprintf("func Ia%s(s int) string { return fmt.Sprint(\"a\", s) }\n", id)
+						conv.Extends = []*model.Custom{{Name: "Ia" + id, Src: tInt, Dst: tStr, ArgsFmt: []string{"src"}}}
+						sc.Funcs["Ia"+id] = "conv.Ia" + id
+						mlines = append(mlines, "default "+fn)
+						top.Default = &model.Custom{Name: fn, Src: sT, Dst: tT, Ctx: []*space.Ty{tStr}, ArgsFmt: []string{"src", "ctx:0"}}
+					}
+					sc.Funcs[fn] = "conv." + fn
+					conv.Methods = []*model.Method{top}
+					sc.Methods = []*ScMethod{{Name: "Convert", Params: "source " + sT.Go("conv") + ", ctxa string", Result: tT.Go("conv"), Lines: mlines, M: top}}
+					sc.SrcIdx, sc.CtxIdx = 0, []int{1}
+					sc.Mode = "value,nomutate"
+					if site == "default" {
+						sc.Mode = "value,nilkeeps"
+					}
+					if !funcIsCtx {
+						sc.Forced, sc.ForcedReject = true, "FUNC's second parameter is not a context: two source parameters"
+					}
+					out = append(out, sc)
 				}
 			}
 		}
